@@ -114,7 +114,47 @@ def units_direct(case, obs):
             return "ParseInt(FormatShortInt(%s)) = %s, expected %s (short form %r)" % (n, o[3], n, o[1][1])
         if o[4] != ["ok", n]:
             return "ParseInt(FormatLongInt(%s)) = %s, expected %s (long form %r)" % (n, o[4], n, o[2][1])
+    if pl[0] == "fmtfloat":
+        # (r short long parsefloat_short parsefloat_long): format followed by parse returns the original
+        # within floating-point tolerance (each component is printed with six decimals)
+        x = fl_value(pl[2])
+        if x is None or x < 0:
+            return None
+        for form, text, res in (("Short", o[1][1], o[3]), ("Long", o[2][1], o[4])):
+            if res == "err":
+                return "Format%sFloat(%r) = %r, which ParseFloat rejects" % (form, x, text)
+            got = fl_value(res[1])
+            if got is None or abs(got - x) > 1e-6 * max(1.0, abs(x)):
+                return "ParseFloat(Format%sFloat(%r)) = %r, expected %r within tolerance (formatted as %r)" % (form, x, got, x, text)
+    if pl[0] == "unser":
+        # (r IntSchema.Unserialize FloatSchema.Unserialize ParseInt ParseFloat): a schema with units reads a string
+        # with the units grammar and nothing else, so both observation points give the same answer
+        if o[1] != o[3]:
+            return ("IntSchema(units).Unserialize(%r) = %s but UnitsDefinition.ParseInt gives %s: a string that is not counts followed "
+                    "by declared unit names must be rejected (and a well-formed one must give the same number)" % (pl[2][1], o[1], o[3]))
+        if o[2] != o[4]:
+            return ("FloatSchema(units).Unserialize(%r) = %s but UnitsDefinition.ParseFloat gives %s: a string that is not counts "
+                    "followed by declared unit names must be rejected (and a well-formed one must give the same number)"
+                    % (pl[2][1], fl_show(o[2]), fl_show(o[4])))
     return None
+
+
+def fl_value(x):
+    """FL of the interchange syntax -> Python float (None for NaN)."""
+    if isinstance(x, list):
+        import math
+        try:
+            v = math.ldexp(float(int(x[1])), int(x[2]))
+        except OverflowError:
+            v = float("inf")
+        return -v if x[0] == "-" else v
+    return {"+0": 0.0, "-0": -0.0, "+inf": float("inf"), "-inf": float("-inf")}.get(x)
+
+
+def fl_show(o):
+    if isinstance(o, list) and o[0] == "ok":
+        return "(ok %r)" % fl_value(o[1]) if o[1] != "nan" else "(ok NaN)"
+    return str(o)
 
 
 # ------------------------------------------------------------------------------------------
@@ -156,9 +196,16 @@ def explain_disagreement(prop, fam, case, obs, pred):
 
 def units_explain(case, obs, pred):
     pl = case_payload(case)
-    if pl[0] == "parse":
-        return ("ParseInt(%r) returned %s; the specification (sum of count x multiplier for a string of counts followed by "
-                "declared unit names, an error for every other string) gives %s" % (pl[2][1], obs, pred))
+    if pl[0] in ("parse", "parsefloat"):
+        return ("%s(%r) returned %s; the specification (sum of count x multiplier for a string of counts followed by "
+                "declared unit names, an error for every other string) gives %s"
+                % ("ParseInt" if pl[0] == "parse" else "ParseFloat", pl[2][1], obs, pred))
+    if pl[0] == "unser":
+        return ("(IntSchema.Unserialize, FloatSchema.Unserialize, ParseInt, ParseFloat) of %r with units gave %s; the specification "
+                "(sum of count x multiplier for counts followed by declared unit names, an error for every other string) gives %s"
+                % (pl[2][1], obs, pred))
+    if pl[0] == "fmtfloat":
+        return "float formatting / re-parsing of %r differs from the model: observed %s, model %s" % (fl_value(pl[2]), obs, pred)
     return "formatting differs from the proved model: observed %s, model %s" % (obs, pred)
 
 
@@ -237,14 +284,22 @@ PROPS = {
         "engines": [c16_sweep_engine],
         "rule": "units: the five built-in unit sets (from the live SDK) and generated definitions (prefix-overlapping names, "
                 "regexp metacharacters) x {integer sweep 0..N, powers of ten, multiplier boundaries +-1, random 63-bit values} "
-                "formatted short+long and re-parsed, plus generated well-formed and near-miss strings parsed; distinct by case "
-                "text; non-trivial = uses a multiplier (formatting) or is a parse input",
-        "assumptions": ["ASCII inputs for strings.TrimSpace; float formatting/parsing is modelled separately"],
+                "formatted short+long and re-parsed, plus generated well-formed and near-miss strings parsed; the float side: "
+                "whole-number floats 0..N (and x10, /4), multiples of the multipliers, short and six-digit fractions, random "
+                "mantissas, formatted short+long with FormatShortFloat/FormatLongFloat and re-parsed with ParseFloat (direct "
+                "tolerance check 1e-6 relative), float strings through ParseFloat; the schema entry points: "
+                "IntSchema/FloatSchema(units).Unserialize next to ParseInt/ParseFloat on well-formed, near-miss and "
+                "number-look-alike strings (exponents, hex, inf/nan, signs, leading/trailing point, digit separators); distinct by "
+                "case text; non-trivial = uses a multiplier (integer formatting) or is a float / parse / unserialize input",
+        "assumptions": ["ASCII inputs for strings.TrimSpace", "floats formatted are non-negative, finite and below 2^53 x 2^40"],
         "level_text": "Theorems (unbounded): the greedy decomposition printed by the formatter sums back to n for any positive "
                       "multipliers; the parser's accumulator returns exactly the sum of count x multiplier or an error when a product or "
                       "partial sum leaves int64. Theorem (finite domain, by vm_compute): format-then-parse is the identity on the built-in "
-                      "unit sets dumped from the live SDK for every integer in [0,2000] (thorough: [0,200000]). Partial: the string-level "
-                      "round trip for arbitrary definitions and the float side are carried by the correspondence check only.",
+                      "unit sets dumped from the live SDK for every integer in [0,2000] (thorough: [0,200000]). Float side, theorems "
+                      "(unbounded): trimFraction returns the integer part of a decimal rendering untouched and removes only trailing "
+                      "zeros of the fraction (value kept), and this is what the formatter prints for every finite float64 count. "
+                      "Partial: the string-level round trip for arbitrary definitions and the float round trip within tolerance are "
+                      "carried by the correspondence check and the direct predicate only.",
         "level_note": "Model = Schema/Units.v + Schema/Regex.v (backtracking matcher with Go's leftmost-first semantics), hand-written; "
                       "tied to schema/units.go by differential runs on generated definitions and strings; Generated/Tables.v is re-dumped "
                       "from the SDK on every run. Go's regexp engine is modelled, not verified.",
